@@ -510,10 +510,26 @@ func (v *Validator) typeOfComparison(env *requestEnv, left, right ast.IsNode, ca
 		errs = append(errs, rightExpectErr)
 	}
 
+	if len(errs) == 0 && lt != nil && rt != nil && !sameComparableType(lt, rt) {
+		errs = append(errs, typeIncompatErr(lt, rt))
+	}
+
 	if len(errs) > 0 {
 		return typeBool{}, caps, errors.Join(errs...)
 	}
 	return typeBool{}, caps, nil
+}
+
+// sameComparableType reports whether two comparable types (Long, datetime, duration) are the same type.
+func sameComparableType(a, b cedarType) bool {
+	_, aLong := a.(typeLong)
+	_, bLong := b.(typeLong)
+	if aLong || bLong {
+		return aLong && bLong
+	}
+	ae, aOk := a.(typeExtension)
+	be, bOk := b.(typeExtension)
+	return aOk && bOk && ae.name == be.name
 }
 
 func (v *Validator) typeOfArith(env *requestEnv, left, right ast.IsNode, caps capabilitySet) (cedarType, capabilitySet, error) {
